@@ -184,7 +184,8 @@ where
     let shard = self.shared.store.get_shard(&key);
     let guard = shard.map.write_async().await;
 
-    if guard.contains_key(&key) {
+    let tti = self.shared.time_to_idle;
+    if guard.get(&key).is_some_and(|e| !e.is_expired(tti)) {
       AsyncEntry::Occupied(AsyncOccupiedEntry {
         key,
         shard_guard: guard,
